@@ -43,6 +43,7 @@ type Interp struct {
 	overrides  map[string]Val
 	inOverride map[string]bool
 	abstracted map[string]bool
+	autoAll    bool
 	inInit     int
 	panicking  []*targetPanic
 }
@@ -141,6 +142,8 @@ func (it *Interp) globalAddr(g *ssa.Global) Ptr {
 		if elem.String() == "error" {
 			// sentinel errors of dependencies are non-nil
 			v = IfaceV{V: &Native{Kind: "error", Data: &ErrData{registered: true, desc: g.String()}, Tag: g.String()}}
+		} else if cv, ok := it.constGlobalInit(g); ok {
+			v = cv
 		} else {
 			v = it.opaqueOfType(elem, "global:"+g.String())
 		}
@@ -149,6 +152,44 @@ func (it *Interp) globalAddr(g *ssa.Global) Ptr {
 	*p = v
 	it.globals[g] = p
 	return p
+}
+
+// constGlobalInit: the value of a dependency's package-level variable when its initialiser is a constant or
+// big.NewInt(constant) (e.g. go-ethereum's common.Big1); read from the dependency's own init function.
+func (it *Interp) constGlobalInit(g *ssa.Global) (Val, bool) {
+	initFn := g.Pkg.Func("init")
+	if initFn == nil {
+		return nil, false
+	}
+	var found *ssa.Store
+	n := 0
+	for _, b := range initFn.Blocks {
+		for _, in := range b.Instrs {
+			if st, ok := in.(*ssa.Store); ok && st.Addr == ssa.Value(g) {
+				found = st
+				n++
+			}
+		}
+	}
+	if n != 1 {
+		return nil, false
+	}
+	switch v := found.Val.(type) {
+	case *ssa.Const:
+		if v.Value == nil {
+			return nil, false
+		}
+		return it.constVal(v), true
+	case *ssa.Call:
+		if f := v.Call.StaticCallee(); f != nil && f.String() == "math/big.NewInt" && len(v.Call.Args) == 1 {
+			if c, ok := v.Call.Args[0].(*ssa.Const); ok && c.Value != nil {
+				i, _ := constant.Int64Val(constant.ToInt(c.Value))
+				var iv Val = IntV{IntI(i)}
+				return Ptr(&iv), true
+			}
+		}
+	}
+	return nil, false
 }
 
 // runInit executes the synthetic init of a teleport package, skipping inits of imports.
@@ -448,7 +489,7 @@ func (it *Interp) prepareCall(fr *frame, c *ssa.CallCommon) (Val, []Val) {
 			it.tpanic("method call on nil interface (" + c.Method.Name() + ")")
 		}
 		if n, ok := iv.V.(*Native); ok && iv.T == nil {
-			fn = &nativeMethod{n: n, name: c.Method.Name()}
+			fn = &nativeMethod{n: n, name: c.Method.Name(), sig: c.Signature()}
 		} else {
 			f := it.prog.LookupMethod(iv.T, c.Method.Pkg(), c.Method.Name())
 			if f == nil {
@@ -497,6 +538,7 @@ var fallThrough Val = &Native{Kind: "fallthrough"}
 type nativeMethod struct {
 	n    *Native
 	name string
+	sig  *types.Signature
 }
 
 func (it *Interp) call(fn Val, args []Val, site ssa.Instruction) Val {
@@ -514,6 +556,17 @@ func (it *Interp) call(fn Val, args []Val, site ssa.Instruction) Val {
 	case *ssa.Builtin:
 		return it.callBuiltin(fn, args, site)
 	case *nativeMethod:
+		if it.autoAll && fn.n.Kind == "opaque" && fn.sig != nil {
+			// abstract-all mode: a method of an arbitrary dependency object returns an arbitrary value
+			res := fn.sig.Results()
+			switch res.Len() {
+			case 0:
+				return nil
+			case 1:
+				return it.opaqueOfType(res.At(0).Type(), "auto:"+fn.name)
+			}
+			return it.opaqueOfType(res, "auto:"+fn.name)
+		}
 		return it.callNative(fn.n, fn.name, args)
 	case *boundModel:
 		return fn.f(it, args)
